@@ -21,6 +21,7 @@ Feature switches (names listed in ``avoid`` are switched off):
   branch_persist     name first assigned in a branch in one pass and read in a later pass
   list_alias         b = a for lists
   list_local         list first assigned inside the main loop / a helper
+  forward_ref_nonint a helper calling a float-returning helper that is defined further down (typed int at that point)
   helper_mixed_sig   (retired: mixed signatures are generated through gen_poly_helper, whose bodies are valid for ints and floats)
   try_except         try/except blocks
   range_bound_mutation  for-range bound that mentions names the loop body assigns
@@ -57,6 +58,7 @@ ALL_FEATURES = [
     "list_alias",
     "list_local",
     "helper_mixed_sig",
+    "forward_ref_nonint",
     "try_except",
     "range_bound_mutation",
     "double_eval",
@@ -1202,6 +1204,36 @@ class ProgGen:
                 out.append((0, f"mon.write({name}({args2}))"))
         return out
 
+    def gen_forward_pair(self, env) -> List[Tuple[int, str]]:
+        """Two helpers where the first one defined calls the second (forward reference), or mutual recursion."""
+
+        r = self.rng
+        a, b = self.fresh("fwd"), self.fresh("fwd")
+        n = self.fresh("a")
+        if self.chance(0.3):
+            # even / odd by mutual recursion
+            self.emit(0, f"def {a}({n}):")
+            self.emit(1, f"if {n} <= 0:")
+            self.emit(2, "return 1")
+            self.emit(1, f"return {b}({n} - 1)")
+            self.emit(0, f"def {b}({n}):")
+            self.emit(1, f"if {n} <= 0:")
+            self.emit(2, "return 0")
+            self.emit(1, f"return {a}({n} - 1)")
+            return [(0, f"mon.write({a}({d}))") for d in sorted({r.randint(0, 5), r.randint(0, 5)})]
+        nonint = self.feature("forward_ref_nonint", 0.4)
+        body_b = r.choice([f"{n} * 0.5", f"{n} + 0.25"]) if nonint else r.choice([f"{n} * 2", f"{n} + 7", f"0 - {n}"])
+        self.emit(0, f"def {a}({n}):")
+        if self.chance(0.5):
+            t = self.fresh("t")
+            self.emit(1, f"{t} = {b}({n})")
+            self.emit(1, f"return {t} + 1")
+        else:
+            self.emit(1, f"return {b}({n}) + 1")
+        self.emit(0, f"def {b}({n}):")
+        self.emit(1, f"return {body_b}")
+        return [(0, f"mon.write({a}({r.randint(0, 9)}))"), (0, f"mon.write({b}({r.randint(0, 9)}))")]
+
     def gen_recursive_helper(self, env) -> List[Tuple[int, str]]:
         """A self-recursive helper (result kept in a local or used inline), called for depths 0..4."""
 
@@ -1343,6 +1375,8 @@ class ProgGen:
                 deferred.extend(self.gen_recursive_helper(env))
             if self.chance(0.3):
                 (deferred if self.chance(0.7) else deferred_loop).extend(self.gen_poly_helper(env))
+            if self.chance(0.2):
+                (deferred if self.chance(0.7) else deferred_loop).extend(self.gen_forward_pair(env))
         # every helper is called at least once (an uncalled helper keeps default-typed parameters)
         for h in self.helpers:
             args = [self.expr(env, t, 2, no_call=True) for _n, t in h.params]
